@@ -448,7 +448,32 @@ pub fn mutate_doc(rng: &mut Rng, doc: &Value, other_names: &[String], cells: &mu
     text.unwrap_or_else(|| serde_json::to_vec(&v).unwrap())
 }
 
+/// the same operation with the document's name replaced by the handler's alias (no intent:
+/// the parts decide what such a document means)
+fn alias_form(op: &Op, reg: &Reg, contracts: &[ContractInfo]) -> Option<Op> {
+    let (target, msg, intent) = match op {
+        Op::Exec { target, msg, intent, .. } | Op::Query { target, msg, intent } | Op::Sudo { target, msg, intent } => (target, msg, intent.as_ref()?),
+        _ => return None,
+    };
+    let cid = contracts.iter().find(|c| c.addr == *target).map(|c| c.cid.as_str())?;
+    let h = reg.get(cid)?.spec.handler(&intent.hid)?;
+    if h.alias.is_empty() {
+        return None;
+    }
+    let v: Value = serde_json::from_slice(&msg.0).ok()?;
+    let body = v.as_object()?.get(h.wire)?.clone();
+    let doc = Doc::json(&json!({ h.alias: body }));
+    Some(match op {
+        Op::Exec { target, sender, funds, .. } => Op::Exec { target: target.clone(), sender: sender.clone(), msg: doc, funds: funds.clone(), intent: None },
+        Op::Query { target, .. } => Op::Query { target: target.clone(), msg: doc, intent: None },
+        Op::Sudo { target, .. } => Op::Sudo { target: target.clone(), msg: doc, intent: None },
+        _ => return None,
+    })
+}
+
 fn names_elsewhere(reg: &Reg, e: &Entry, kind: Kind) -> Vec<String> {
+    // second names given by forwarded aliases count as names around
+    let aliases: Vec<String> = e.spec.handlers.iter().filter(|h| !h.alias.is_empty()).flat_map(|h| vec![h.alias.to_string(); 4]).collect();
     let mut v: Vec<String> = e
         .spec
         .handlers
@@ -462,6 +487,7 @@ fn names_elsewhere(reg: &Reg, e: &Entry, kind: Kind) -> Vec<String> {
     v.extend((e.name_lists)(kind.entry()).into_iter().flat_map(|(_, l)| l));
     v.push("instantiate".into());
     v.push("migrate".into());
+    v.extend(aliases);
     v
 }
 
@@ -494,6 +520,11 @@ impl Profile for WireFaults {
         let mut ops = vec![];
         for _ in 0..n {
             let Some(op) = tg.op(rng) else { continue };
+            // a handler with a forwarded serde alias may be addressed by that second name
+            let op = match alias_form(&op, reg, &base.contracts) {
+                Some(aliased) if rng.chance(1, 2) => aliased,
+                _ => op,
+            };
             if rng.chance(1, 3) {
                 ops.push(op);
                 continue;
